@@ -130,6 +130,9 @@ def c16_run(fp, spec, root):
         ds = None
     else:
         ds = os.path.join(root, "ds")
+        # a categorical column: writer.consolidate_categories then rewrites the 'pandas' entry on every summary write / directory open -
+        # the user keys around that entry must survive it
+        df = df.assign(c=pd.Categorical(["u", "v", "u", "w", "v", "u", "w"]))
         fp.write(ds, df, file_scheme="hive", partition_on=["p"] if spec.get("partitioned") else [],
                  custom_metadata=dict(initial), row_group_offsets=[0, 4])
         target = os.path.join(ds, kind)
